@@ -2907,7 +2907,9 @@ class RoAffine:
             else:
                 left = self
                 right = other
-            raffine = left.raffine + right.raffine
+            # an operand built before a later rvar() has fewer random columns
+            width = max(left.raffine.shape[1], right.raffine.shape[1])
+            raffine = left.fit_rand(width) + right.fit_rand(width)
             affine = left.affine + right.affine
             if self.dec_model is not other.dec_model or \
                self.rand_model is not other.rand_model:
@@ -2958,6 +2960,22 @@ class RoAffine:
             return RoAffine(raffine, affine, self.rand_model)
         else:
             raise TypeError('Expression not supported.')
+
+    def fit_rand(self, width):
+
+        raffine = self.raffine
+        size, num_rand = raffine.shape
+        if num_rand == width:
+            return raffine
+
+        rows = (np.arange(size).reshape((size, 1))*width +
+                np.arange(num_rand)).flatten()
+        pad = csr_matrix((np.ones(size*num_rand),
+                          (rows, np.arange(size*num_rand))),
+                         shape=(size*width, size*num_rand))
+        const = np.hstack((raffine.const, np.zeros((size, width-num_rand))))
+
+        return Affine(raffine.model, pad @ raffine.linear, const)
 
     def __radd__(self, other):
 
